@@ -322,7 +322,11 @@ def reentrant_in_finished(case, dr):
 
 def run_kind_slice(pid, cfg, tier, seed, workdir, rep, stats, findings):
     import shapes
-    known_shapes = {f["shape"]: f["id"] for f in findings if f["status"] == "known" and f.get("shape")}
+    # a program / history shape of ANY known finding excuses a deviation from the reference
+    # semantics (never one from the net model, which reproduces the defects); the KNOWN-FINDING
+    # line is printed only for the findings that list this property
+    known_shapes = {f["shape"]: f["id"] for f in common.load_known_findings()
+                    if f["status"] == "known" and f.get("shape")}
 
     def attribute(case, dr):
         for sh in sorted(shapes.parloop_findings(case["prog"])):
